@@ -54,6 +54,22 @@ func (sc *SpecCtx) applySpecFunc(sf *SpecFunc, args []Val) Val {
 	}
 	psc := *sc
 	psc.pkg = vc.eng.pkgTypes(sf.Pkg, sc.pkg)
+	if sf.Uninterp {
+		// declared only: an uninterpreted function of its arguments (and, like pure
+		// functions, of the contents of slice arguments)
+		var avs []Val
+		for i, p := range sf.Params {
+			avs = append(avs, psc.coerce(args[i], psc.lookupType(p.Type)))
+		}
+		rt := psc.lookupType(sf.Ret)
+		heapOf := func(comp, srt string) Term {
+			if sc.hp != nil {
+				return sc.hp.term(comp, srt)
+			}
+			return vc.heapGet(sc.st, comp, srt)
+		}
+		return Val{Ty: rt, T: vc.pureApp("spec."+sf.Name, avs, rt, heapOf)}
+	}
 	if !sf.Recursive {
 		if sc.depth > 40 {
 			panic(engErr("spec function expansion too deep: " + sf.Name))
@@ -166,7 +182,18 @@ func (vc *VC) declareRecSpec(sc *SpecCtx, sf *SpecFunc) *recSpec {
 	for i, c := range prov.comps {
 		ps = append(ps, fmt.Sprintf("(h!%s %s)", c, prov.sorts[i]))
 	}
-	vc.emit(fmt.Sprintf("(define-fun-rec %s (%s) %s %s)", name, strings.Join(ps, " "), vc.sortOf(rt), body.T.S))
+	def := fmt.Sprintf("(define-fun-rec %s (%s) %s %s)", name, strings.Join(ps, " "), vc.sortOf(rt), body.T.S)
+	vc.emit(def)
+	// the same symbol without its definition (used by the "norec" proof attempt)
+	var srts []string
+	for _, p := range sf.Params {
+		srts = append(srts, vc.sortOf(sc.lookupType(p.Type)))
+	}
+	srts = append(srts, prov.sorts...)
+	if vc.recDecl == nil {
+		vc.recDecl = map[string]string{}
+	}
+	vc.recDecl[def] = fmt.Sprintf("(declare-fun %s (%s) %s)", name, strings.Join(srts, " "), vc.sortOf(rt))
 	return prov
 }
 
@@ -177,7 +204,85 @@ func (vc *VC) recSpecs() map[string]*recSpec {
 	return vc.recSpecMap
 }
 
+// pureCall evaluates, inside a contract expression, a call of a Go function or
+// method whose contract is marked `pure`: the same uninterpreted function that
+// replaces the call in code.
 func (sc *SpecCtx) pureCall(x *SX, fn *SX, args []*SX) (Val, bool) {
+	vc := sc.vc
+	heapOf := func(comp, srt string) Term {
+		if sc.hp != nil {
+			return sc.hp.term(comp, srt)
+		}
+		return vc.heapGet(sc.st, comp, srt)
+	}
+	var avs []Val
+	for _, a := range args {
+		avs = append(avs, sc.eval(a))
+	}
+	if fn.K == "sel" {
+		// method call recv.M(args)
+		if fn.Args[0].K == "id" {
+			if _, isVar := sc.vars[fn.Args[0].Op]; !isVar && sc.findImport(fn.Args[0].Op) != nil {
+				// package-qualified function pkg.F(args)
+				p := sc.findImport(fn.Args[0].Op)
+				key := p.Path() + "." + fn.Op
+				c := vc.eng.contracts.Funcs[key]
+				if c == nil || !c.Pure {
+					return Val{}, false
+				}
+				f, ok := p.Scope().Lookup(fn.Op).(*types.Func)
+				if !ok {
+					return Val{}, false
+				}
+				rt := f.Type().(*types.Signature).Results().At(0).Type()
+				return Val{Ty: vc.resolve(rt), T: vc.pureApp(key, avs, rt, heapOf)}, true
+			}
+		}
+		recv := sc.eval(fn.Args[0])
+		obj, _, _ := types.LookupFieldOrMethod(vc.resolve(recv.Ty), true, sc.pkg, fn.Op)
+		m, ok := obj.(*types.Func)
+		if !ok {
+			return Val{}, false
+		}
+		sig := m.Type().(*types.Signature)
+		rt := sig.Results().At(0).Type()
+		var key string
+		if _, isIface := vc.under(recv.Ty).(*types.Interface); isIface {
+			key = methodKey(vc.resolve(recv.Ty), fn.Op)
+		} else {
+			key = methodKey(sig.Recv().Type(), fn.Op)
+		}
+		c := vc.eng.contracts.Funcs[key]
+		if c == nil || !c.Pure {
+			return Val{}, false
+		}
+		for i := range avs {
+			if i < sig.Params().Len() {
+				avs[i] = sc.coerce(avs[i], sig.Params().At(i).Type())
+			}
+		}
+		all := append([]Val{recv}, avs...)
+		return Val{Ty: vc.resolve(rt), T: vc.pureApp(key, all, rt, heapOf)}, true
+	}
+	if fn.K == "id" && sc.pkg != nil {
+		key := sc.pkg.Path() + "." + fn.Op
+		c := vc.eng.contracts.Funcs[key]
+		if c == nil || !c.Pure {
+			return Val{}, false
+		}
+		f, ok := sc.pkg.Scope().Lookup(fn.Op).(*types.Func)
+		if !ok {
+			return Val{}, false
+		}
+		sig := f.Type().(*types.Signature)
+		for i := range avs {
+			if i < sig.Params().Len() {
+				avs[i] = sc.coerce(avs[i], sig.Params().At(i).Type())
+			}
+		}
+		rt := sig.Results().At(0).Type()
+		return Val{Ty: vc.resolve(rt), T: vc.pureApp(key, avs, rt, heapOf)}, true
+	}
 	return Val{}, false
 }
 
